@@ -10,6 +10,11 @@
 //! src take_lines <n> <mem|file> <hex>              the same lenders under `.take(n)`
 //! src take_gzip|take_zstd <n> <mem|file> <plainhex> <comphex>
 //! src take_iter <n> [a,b,c]
+//! src iterx <vec|deque|boxed|btree|range|repeat> [a,b,c]   FromIntoIterator over another clonable
+//!                                                  IntoIterator holding exactly these items
+//! src take_iterx <n> <kind> [a,b,c]
+//! backing `path` / `fd` (besides mem, file): the convenience constructors `from_path(path)` /
+//! `from_file(File)` of the three line lenders (`file` = `LineLender::from_path`, `*::new(File)`)
 //! next <k>       k calls of next()                 -> ok <e1> .. <ek>
 //! all            next() until the first None       -> ok <e1> .. <en> end
 //! rewind         rewind() of a non-Take lender     -> ok | err <msg>
@@ -232,15 +237,47 @@ fn build(ctx: &Ctx, t: &[&str]) -> Result<S, String> {
             s.items = v.iter().map(|x| format!("n:{}", x)).collect();
             s.l = Some(wrap!(NumL, FromIntoIterator::from(v)));
         }
+        "iterx" => {
+            let v = parse_list(rest[1]);
+            s.items = v.iter().map(|x| format!("n:{}", x)).collect();
+            s.l = Some(match rest[0] {
+                "vec" => wrap!(NumL, FromIntoIterator::from(v)),
+                "deque" => wrap!(NumL, FromIntoIterator::from(v.into_iter().collect::<std::collections::VecDeque<u64>>())),
+                "boxed" => wrap!(NumL, FromIntoIterator::from(v.into_boxed_slice())),
+                "btree" => {
+                    let set: std::collections::BTreeSet<u64> = v.iter().copied().collect();
+                    assert!(set.iter().copied().eq(v.iter().copied()), "iterx btree: items must be strictly increasing");
+                    wrap!(NumL, FromIntoIterator::from(set))
+                }
+                "range" => {
+                    let a = v.first().copied().unwrap_or(5);
+                    assert!(v.iter().enumerate().all(|(i, &x)| x == a + i as u64), "iterx range: items must be consecutive");
+                    wrap!(NumL, FromIntoIterator::from(a..a + v.len() as u64))
+                }
+                "repeat" => {
+                    let a = v.first().copied().unwrap_or(0);
+                    assert!(v.iter().all(|&x| x == a), "iterx repeat: items must be equal");
+                    wrap!(NumL, FromIntoIterator::from(std::iter::repeat(a).take(v.len())))
+                }
+                k => panic!("unknown iterx kind {}", k),
+            });
+        }
         "lines" => {
             let bytes = unhex(rest[1]);
             s.items = oracle_lines(&bytes);
-            if rest[0] == "mem" {
-                s.l = Some(wrap!(StrL, LineLender::new(Cursor::new(bytes))));
-            } else {
-                let f = temp_with(ctx, &bytes);
-                s.l = Some(wrap!(StrL, LineLender::from_path(f.path()).map_err(io)?));
-                s._file = Some(f);
+            match rest[0] {
+                "mem" => s.l = Some(wrap!(StrL, LineLender::new(Cursor::new(bytes)))),
+                "fd" => {
+                    let f = temp_with(ctx, &bytes);
+                    let file = File::open(f.path()).map_err(io)?;
+                    s.l = Some(wrap!(StrL, LineLender::from_file(file)));
+                    s._file = Some(f);
+                }
+                _ => {
+                    let f = temp_with(ctx, &bytes);
+                    s.l = Some(wrap!(StrL, LineLender::from_path(f.path()).map_err(io)?));
+                    s._file = Some(f);
+                }
             }
         }
         "gzip" | "zstd" => {
@@ -253,6 +290,34 @@ fn build(ctx: &Ctx, t: &[&str]) -> Result<S, String> {
                 }
                 ("zstd", "mem") => {
                     s.l = Some(wrap!(StrL, ZstdLineLender::new(Cursor::new(comp)).map_err(io)?))
+                }
+                ("gzip", "path") => {
+                    let f = temp_with(ctx, &comp);
+                    // the impl block is on `GzipLineLender<BufReader<GzDecoder<BufReader<File>>>>`;
+                    // the result is a `GzipLineLender<File>`
+                    let l: GzipLineLender<File> = GzipLineLender::from_path(f.path()).map_err(io)?;
+                    s.l = Some(wrap!(StrL, l));
+                    s._file = Some(f);
+                }
+                ("gzip", "fd") => {
+                    let f = temp_with(ctx, &comp);
+                    let file = File::open(f.path()).map_err(io)?;
+                    let l: GzipLineLender<File> = GzipLineLender::from_file(file).map_err(io)?;
+                    s.l = Some(wrap!(StrL, l));
+                    s._file = Some(f);
+                }
+                ("zstd", "path") => {
+                    let f = temp_with(ctx, &comp);
+                    let l: ZstdLineLender<File> = ZstdLineLender::from_path(f.path()).map_err(io)?;
+                    s.l = Some(wrap!(StrL, l));
+                    s._file = Some(f);
+                }
+                ("zstd", "fd") => {
+                    let f = temp_with(ctx, &comp);
+                    let file = File::open(f.path()).map_err(io)?;
+                    let l: ZstdLineLender<File> = ZstdLineLender::from_file(file).map_err(io)?;
+                    s.l = Some(wrap!(StrL, l));
+                    s._file = Some(f);
                 }
                 ("gzip", _) => {
                     let f = temp_with(ctx, &comp);
@@ -658,10 +723,37 @@ fn gen_src(ctx: &mut Ctx, kind: &str, take: Option<u64>, text: Option<Text>) -> 
             _ => 20 + ctx.rng.usize_below(300),
         };
         let v: Vec<u64> = (0..n).map(|_| ctx.rng.word()).collect();
+        // FromIntoIterator over other clonable IntoIterators holding the same kind of items
+        if ctx.rng.chance(1, 2) {
+            let kind = *ctx.rng.pick(&["vec", "deque", "boxed", "btree", "range", "repeat"]);
+            let base = ctx.rng.word() >> 1;
+            let v: Vec<u64> = match kind {
+                "btree" => {
+                    let mut w = v.clone();
+                    w.sort();
+                    w.dedup();
+                    w
+                }
+                "range" => (0..n as u64).map(|i| base + i).collect(),
+                "repeat" => vec![base; n],
+                _ => v,
+            };
+            let tkx = match take {
+                Some(t) => format!("take_iterx {}", t),
+                None => "iterx".to_string(),
+            };
+            let n = v.len();
+            return (format!("src {} {} {}", tkx, kind, fmt_u64s(&v)), n, format!("x{}:n{}", kind, n.min(3)));
+        }
         return (format!("src {} {}", tk, fmt_u64s(&v)), n, format!("n{}", n.min(3)));
     }
     let text = text.unwrap_or_else(|| gen_text(ctx));
-    let backing = if ctx.rng.chance(1, 4) { "file" } else { "mem" };
+    let backing = match ctx.rng.below(8) {
+        0 => "file",
+        1 => "path",
+        2 => "fd",
+        _ => "mem",
+    };
     if kind == "lines" {
         let n = oracle_lines(&text.bytes).len();
         (
@@ -771,8 +863,12 @@ fn directed(ctx: &mut Ctx) {
         let big = text.len() > 10_000;
         let kinds: &[&str] = if big || ti % 3 == 0 { &["lines", "gzip", "zstd"] } else { &["lines"] };
         for kind in kinds {
-            for backing in ["mem", "file"] {
-                if backing == "file" && !(big || ti % 4 == 0) {
+            for backing in ["mem", "file", "path", "fd"] {
+                if backing != "mem" && !(big || ti % 4 == 0) {
+                    continue;
+                }
+                // `path` of a plain line lender is the constructor `file` already uses
+                if backing == "path" && *kind == "lines" {
                     continue;
                 }
                 let tail = match *kind {
@@ -797,6 +893,9 @@ fn directed(ctx: &mut Ctx) {
                     if hi > 0 && *kind != "lines" && ti % 2 == 1 {
                         continue;
                     }
+                    if (backing == "path" || backing == "fd") && hi % 2 == 1 {
+                        continue;
+                    }
                     run_case(ctx, &src, h);
                     ctx.shape(format!("directed:{}:{}:t{}:h{}", kind, backing, ti, hi));
                 }
@@ -812,7 +911,7 @@ fn directed(ctx: &mut Ctx) {
         let mut z = zstd_frame(&a, 3, &[]);
         z.extend_from_slice(&zstd_frame(&b, 3, &[]));
         let ab = [a.clone(), b.clone()].concat();
-        for backing in ["mem", "file"] {
+        for backing in ["mem", "file", "path", "fd"] {
             let h: Vec<String> = vec!["next 1".into(), "rewind".into(), "all".into(), "rewind".into(), "all".into()];
             run_case(ctx, &format!("src gzip {} {} {}", backing, hex_arg(&a), hex_arg(&g)), &h);
             ctx.shape(format!("directed:gzip:{}:members", backing));
@@ -829,6 +928,27 @@ fn directed(ctx: &mut Ctx) {
             run_case(ctx, &src, &h);
             ctx.shape(format!("directed:iter:n{}:k{}", n, k));
         }
+    }
+    // FromIntoIterator over other clonable IntoIterators: zero, partial and complete passes
+    for (kind, v) in [
+        ("deque", vec![9u64, 8, 7, 7]),
+        ("boxed", vec![1, 2, 3]),
+        ("btree", vec![0, 5, u64::MAX]),
+        ("range", vec![10, 11, 12, 13, 14]),
+        ("range", vec![]),
+        ("repeat", vec![42, 42, 42]),
+        ("repeat", vec![]),
+        ("vec", vec![u64::MAX]),
+    ] {
+        let n = v.len();
+        for k in [0, 1, n, n + 1] {
+            let h: Vec<String> = vec![format!("next {}", k), "rewind".into(), "all".into(), "rewind".into(), "rewind".into(), "all".into(), "next 1".into()];
+            run_case(ctx, &format!("src iterx {} {}", kind, fmt_u64s(&v)), &h);
+            ctx.shape(format!("directed:iterx:{}:n{}:k{}", kind, n, k));
+        }
+        let h: Vec<String> = vec!["next 1".into(), "take_rewind".into(), "all".into(), "take_rewind".into(), "all".into()];
+        run_case(ctx, &format!("src take_iterx 2 {} {}", kind, fmt_u64s(&v)), &h);
+        ctx.shape(format!("directed:take_iterx:{}", kind));
     }
     // Take: every count around the number of items × every consumed prefix
     let five = b"a\nb\r\nc\nd\ne";
